@@ -127,7 +127,7 @@ func runC14(t *testing.T, rng *verifsim.RNG, col *verifsim.Collector, variant in
 	synctest.Test(t, func(t *testing.T) {
 		lf := logging.NewDefaultLoggerFactory()
 		lf.DefaultLogLevel = logging.LogLevelDisabled
-		w := &c14World{rng: rng, sim: verifsim.NewSimNet(), start: time.Now(), reqs: map[[12]byte]*c14Req{}, dropReq: map[[12]byte]int{},
+		w := &c14World{rng: verifsim.NewRNG(rng.U64()), sim: verifsim.NewSimNet(), start: time.Now(), reqs: map[[12]byte]*c14Req{}, dropReq: map[[12]byte]int{},
 			dropResp: map[[12]byte]int{}, peerGot: map[string][]string{}, lossy: variant%2 == 1}
 		w.srvConn, _ = w.sim.NewPacketConn(&net.UDPAddr{IP: net.IPv4(10, 0, 0, 1), Port: 3478})
 		w.cliConn, _ = w.sim.NewPacketConn(&net.UDPAddr{IP: net.IPv4(10, 0, 0, 2), Port: 5000})
